@@ -70,14 +70,17 @@ func kHdrParse(args []string) (string, string) {
 		p2, f2, _, e2 := gowarc.VerifParseFields(pol, &gowarc.VerifStream{Data: ser})
 		if e2 != "" || len(f2) != 0 || showPairs(p2) != showPairs(pairs) {
 			sig := "other"
-			if bytes.Contains(data, []byte("=?")) {
-				sig = "encoded-word"
-			} else {
-				for _, nv := range pairs {
-					if strings.TrimSpace(nv[1]) != nv[1] {
-						sig = "edge-whitespace"
-					}
+			// a value that comes out of the parser with white space at its edges is never a fixpoint, whatever produced it
+			edge := false
+			for _, nv := range pairs {
+				if strings.Trim(nv[1], " \t\r\n") != nv[1] {
+					edge = true
 				}
+			}
+			if edge {
+				sig = "parsed-edge-whitespace"
+			} else if bytes.Contains(data, []byte("=?")) {
+				sig = "encoded-word"
 			}
 			oracle = fmt.Sprintf("VIOL fixpoint-%s pol=%d err=%s findings=%s fields=%d->%d", sig, pol, e2, showList(f2), len(pairs), len(p2))
 			break
@@ -137,6 +140,7 @@ var hdrLinePool = []string{
 	"WARC-Type: response", "warc-date: 2020-01-01T00:00:00Z", "Content-Length: 12", "X-Foo: bar", "X-Foo:bar", "X-Foo :  bar  ",
 	"WARC-Record-ID: <urn:uuid:e9a0ee48-0221-11e7-adb1-0242ac120008>", "a:b:c", "nocolon", "", " ", "\t", ": empty name", "X-Empty:",
 	"X-Enc: =?utf-8?q?a=20b?=", "X-Enc: =?utf-8?b?YWJj?=", "X-Enc: =?iso-8859-1?q?=E6=F8=E5?=", "X-Enc: =?us-ascii?q?=FF?=", "X-Enc: =?x-unknown?q?abc?=",
+	"X-Enc: =?utf-8?q?hello=0D=0A?=", "X-Enc: =?utf-8?q?hello_?=", "X-Enc: =?utf-8?b?aGVsbG8NCg==?=", "X-Enc: =?utf-8?q?=20lead?=", "X-Enc: =?utf-8?q?tab=09?=", "X-Enc: =?utf-8?q?=0A?=",
 	"X-Enc: =?utf-8?q?a=0D=0AWARC-Evil:_x?=", "=?utf-8?q?X-Hidden=3A?= v", "X-Enc: =?utf-8?q?=3D=3Futf-8=3Fq=3Fa=3F=3D?=", "X-Enc: =?utf-8?q?a?= =?utf-8?q?b?=",
 	"X-Enc: =?utf-8?q?a?= x =?utf-8?q?b?=", "X-Enc: =?utf-8?q?bad=zz?=", "X-Enc: =?utf-8?b?!!!?=", "X-Enc: =?utf-8?x?abc?=", "X-Enc: =?utf-8?q?", "X-Enc: =?", "X-Enc: =?a?b",
 	"X-Enc: =?u\xc5\xbf-ascii?q?a?=", "X-Bin: \xff\xfe\x00", "WARC-Bloc\xe2\x84\xaa-Digest: sha1:AAAA", "X-Long: " + strings.Repeat("y", 40),
